@@ -86,6 +86,82 @@ type world struct {
 	keys   map[int][]valKeys // n -> validators
 	spe    uint64
 	other  tbls.PrivateKey
+	doms   sync.Map // beacon mock / domain name / epoch -> eth2p0.Domain
+}
+
+// waitScale multiplies every wait and timeout of the harness (1 normally, 3 in the sequential retry
+// of real-time runs that did not decide under load). Only changed while no scenario is running.
+var waitScale = time.Duration(1)
+
+// infraErr is a failure of the harness's own infrastructure (beacon mock HTTP timeout under load):
+// the run is aborted and counted, never reported as a finding.
+type infraErr struct{ err error }
+
+// sigData is signing.GetDataRoot with the domain cached and retried, so that after the first call
+// the harness's own signature work never depends on the beacon mock's HTTP server being fast.
+func (s *sim) sigData(dom signing.DomainName, epoch eth2p0.Epoch, root eth2p0.Root) [32]byte {
+	key := fmt.Sprintf("%v/%s/%d", s.real, dom, epoch)
+	var domain eth2p0.Domain
+	if v, ok := s.w.doms.Load(key); ok {
+		domain = v.(eth2p0.Domain)
+	} else {
+		var err error
+		for i := 0; i < 6; i++ {
+			domain, err = signing.GetDomain(s.ctx, s.bm, dom, epoch)
+			if err == nil {
+				break
+			}
+			time.Sleep(200 * time.Millisecond * waitScale)
+		}
+		if err != nil {
+			panic(infraErr{err})
+		}
+		s.w.doms.Store(key, domain)
+	}
+	msg, err := (&eth2p0.SigningData{ObjectRoot: root, Domain: domain}).HashTreeRoot()
+	if err != nil {
+		panic(err)
+	}
+
+	return msg
+}
+
+// sigEpochDomain returns the signing domain and epoch of the two object kinds the harness uses,
+// computed from the object itself (no beacon mock call).
+func (s *sim) sigEpochDomain(sd core.SignedData) (signing.DomainName, eth2p0.Epoch, bool) {
+	switch x := sd.(type) {
+	case core.VersionedAttestation:
+		data, err := x.Data()
+		if err != nil || data.Target == nil {
+			return "", 0, false
+		}
+
+		return signing.DomainBeaconAttester, data.Target.Epoch, true
+	case core.SignedSyncMessage:
+		return signing.DomainSyncCommittee, eth2p0.Epoch(uint64(x.Slot) / s.spe), true
+	default:
+		return "", 0, false
+	}
+}
+
+// verifies reports whether sd's signature is the BLS signature of key pk over sd's signing root
+// (pure computation once the domain is cached).
+func (s *sim) verifies(sd core.SignedData, pk tbls.PublicKey) bool {
+	dom, epoch, ok := s.sigEpochDomain(sd)
+	if !ok {
+		return false
+	}
+	root, err := sd.MessageRoot()
+	if err != nil {
+		return false
+	}
+	sig, err := tblsconv.SigFromCore(sd.Signature())
+	if err != nil {
+		return false
+	}
+	msg := s.sigData(dom, epoch, root)
+
+	return tbls.Verify(pk, msg[:], sig) == nil
 }
 
 func quorum(n int) int { return (2*n + 2) / 3 }
@@ -342,6 +418,8 @@ type Result struct {
 	Stats      map[string]int `json:"stats"`
 	NonTrivial bool           `json:"nontrivial"`
 	Outputs    int            `json:"outputs"`
+	Aborted    string         `json:"aborted,omitempty"`
+	Retried    bool           `json:"retried,omitempty"`
 }
 
 type node struct {
@@ -466,9 +544,7 @@ func (s *sim) partialTerm(d core.Duty, pk core.PubKey, p core.ParSignedData) (st
 		gen = false
 		if v, okv := s.valOf(pk); okv {
 			if ps, okp := v.pubshrs[p.ShareIdx]; okp {
-				if e2, oke := p.SignedData.(core.Eth2SignedData); oke {
-					gen = core.VerifyEth2SignedData(s.ctx, s.bm, e2, ps) == nil
-				}
+				gen = s.verifies(p.SignedData, ps)
 			}
 		}
 		s.klass[ck] = gen
@@ -552,28 +628,15 @@ func (s *sim) checkOutput(nd int, where string, d core.Duty, pk core.PubKey, sd 
 		s.hit("output-not-eth2", "node %d %s %v %s: not an eth2 signed object", nd, where, d, pk)
 		return rh
 	}
-	if err := core.VerifyEth2SignedData(s.ctx, s.bm, e2, v.group); err != nil {
-		s.hit("invalid-signature", "node %d %s %v validator %d: signature does not verify under the group key: %v", nd, where, d, v.valIdx, err)
-	} else {
-		// independent of core/eth2signeddata.go: domain and epoch chosen here
-		var dom signing.DomainName
-		var epoch eth2p0.Epoch
-		switch d.Type {
-		case core.DutyAttester:
-			dom = signing.DomainBeaconAttester
-			epoch = eth2p0.Epoch(d.Slot / s.spe)
-		default:
-			dom = signing.DomainSyncCommittee
-			epoch = eth2p0.Epoch(d.Slot / s.spe)
-		}
-		sigData, err := signing.GetDataRoot(s.ctx, s.bm, dom, epoch, root)
-		if err != nil {
-			panic(err)
-		}
-		sig, err := tblsconv.SigFromCore(sd.Signature())
-		if err != nil || tbls.Verify(v.group, sigData[:], sig) != nil {
-			s.hit("invalid-signature", "node %d %s %v validator %d: tbls.Verify on the signing root fails", nd, where, d, v.valIdx)
-		}
+	// The finding is a delivered object whose signature is NOT the group signature over its signing
+	// root: decided by tbls.Verify on a signing root computed here (domain and epoch chosen by the
+	// harness, independent of core/eth2signeddata.go). The repo's own verifier is consulted as well,
+	// but its error alone (it calls the beacon mock, which can time out under load) is not a finding.
+	if !s.verifies(sd, v.group) {
+		s.hit("invalid-signature", "node %d %s %v validator %d: tbls.Verify of the published signature under the group key on the signing root fails", nd, where, d, v.valIdx)
+	} else if err := core.VerifyEth2SignedData(s.ctx, s.bm, e2, v.group); err != nil {
+		s.stat("repo_verifier_error_on_valid_signature")
+		s.logf("node %d %s %v: core.VerifyEth2SignedData: %v (signature valid by tbls.Verify)", nd, where, d, err)
 	}
 	for _, o := range s.outs {
 		if o.duty == d && o.pk == pk && o.root != rh {
@@ -682,10 +745,7 @@ func (s *sim) signAtt(v valKeys, share tbls.PrivateKey, slot uint64, data *eth2p
 	if err != nil {
 		panic(err)
 	}
-	sigData, err := signing.GetDataRoot(s.ctx, s.bm, signing.DomainBeaconAttester, data.Target.Epoch, root)
-	if err != nil {
-		panic(err)
-	}
+	sigData := s.sigData(signing.DomainBeaconAttester, data.Target.Epoch, root)
 	sig, err := tbls.Sign(share, sigData[:])
 	if err != nil {
 		panic(err)
@@ -704,10 +764,7 @@ func (s *sim) signAtt(v valKeys, share tbls.PrivateKey, slot uint64, data *eth2p
 }
 
 func (s *sim) signSync(v valKeys, share tbls.PrivateKey, slot uint64, head eth2p0.Root) *altair.SyncCommitteeMessage {
-	sigData, err := signing.GetDataRoot(s.ctx, s.bm, signing.DomainSyncCommittee, eth2p0.Epoch(slot/s.spe), head)
-	if err != nil {
-		panic(err)
-	}
+	sigData := s.sigData(signing.DomainSyncCommittee, eth2p0.Epoch(slot/s.spe), head)
 	sig, err := tbls.Sign(share, sigData[:])
 	if err != nil {
 		panic(err)
@@ -851,7 +908,7 @@ func (s *sim) actVCAttest(nd *node, d core.Duty, vals []valKeys) {
 	var atts []*eth2spec.VersionedAttestation
 	set := core.ParSignedDataSet{}
 	for _, v := range vals {
-		ctx, cancel := context.WithTimeout(s.ctx, 5*time.Second)
+		ctx, cancel := context.WithTimeout(s.ctx, 5*time.Second*waitScale)
 		resp, err := nd.vapi.AttestationData(ctx, &eth2api.AttestationDataOpts{Slot: eth2p0.Slot(d.Slot), CommitteeIndex: eth2p0.CommitteeIndex(v.valIdx)})
 		cancel()
 		if err != nil {
@@ -1078,7 +1135,8 @@ func runScenario(w *world, sp Spec) (res *Result) {
 	}
 	defer func() {
 		if p := recover(); p != nil {
-			res.Hits = append(res.Hits, Hit{Key: "panic", What: fmt.Sprint(p)})
+			// an aborted run proves nothing either way: counted, never a finding
+			res.Aborted = fmt.Sprint(p)
 		}
 	}()
 
@@ -1150,7 +1208,7 @@ func runScenario(w *world, sp Spec) (res *Result) {
 	attSlot := uint64(slotBase)
 	if s.real {
 		// the duty whose start (slot start + 1/3 slot) is the next one at least 150 ms ahead of now
-		attSlot = uint64((time.Since(w.t0)+150*time.Millisecond-time.Second/3)/time.Second) + 1
+		attSlot = uint64((time.Since(w.t0)+150*time.Millisecond*waitScale-time.Second/3)/time.Second) + 1
 	}
 	att := core.NewAttesterDuty(attSlot)
 	syn := core.NewSyncMessageDuty(attSlot + 1)
@@ -1328,11 +1386,11 @@ func runScenario(w *world, sp Spec) (res *Result) {
 			continue
 		}
 		seen[k] = true
-		cctx, ccancel := context.WithTimeout(ctx, 5*time.Second)
+		cctx, ccancel := context.WithTimeout(ctx, 5*time.Second*waitScale)
 		sd, err := s.nodes[o.node].asdb.Await(cctx, o.duty, o.pk, 0)
 		ccancel()
-		if err != nil {
-			s.hit("aggsigdb-await", "node %d: Await(%v) after a store: %v", o.node, o.duty, err)
+		if err != nil { // no answer (slow machine, or the store had been refused): not an observation of the property
+			s.stat("aggsigdb_await_no_answer")
 			continue
 		}
 		root, _ := sd.MessageRoot()
@@ -1397,6 +1455,28 @@ func TestGen(t *testing.T) {
 			}(i)
 		}
 		wg.Wait()
+	}
+	// Load tolerance: when fewer than half of the real-time runs decided (a saturated machine makes the
+	// round timers fire before messages are processed), the undecided ones are re-run ONCE, one at a
+	// time, with every wait of the harness tripled.
+	forceRetry := os.Getenv("VERIF_REAL_FORCE_RETRY") != "" // exercises the retry path itself
+	decidedRun := func(r *Result) bool { return !forceRetry && r != nil && r.Stats["cons_decided"] > 0 }
+	nd := 0
+	for _, i := range realIdx {
+		if decidedRun(results[i]) {
+			nd++
+		}
+	}
+	if len(realIdx) > 0 && 2*nd < len(realIdx) && os.Getenv("VERIF_REPLAY") == "" {
+		waitScale = 3
+		for _, i := range realIdx {
+			if decidedRun(results[i]) {
+				continue
+			}
+			results[i] = runScenario(w, specs[i])
+			results[i].Retried = true
+		}
+		waitScale = 1
 	}
 	sem := make(chan struct{}, runtime.NumCPU())
 	for i := range specs {
